@@ -142,7 +142,8 @@ def _solve_one(task):
               ("z3", {}, min(timeout_s, 4.0)), ("z3-arith2", {"smt.arith.solver": 2}, min(timeout_s, 6.0))]
     if timeout_s > 4.0:
         stages.append(("z3", {}, timeout_s))
-    texts = ([("+cone", smt2_cone)] if smt2_cone else []) + ([("+relevant-hyps", smt2_rel)] if smt2_rel else []) + [("", smt2)]
+    extras = task[7] if len(task) > 7 and task[7] else []
+    texts = list(extras) + ([("+cone", smt2_cone)] if smt2_cone else []) + ([("+relevant-hyps", smt2_rel)] if smt2_rel else []) + [("", smt2)]
     done = False
     # z3 5.1 command-line front end first: on the quantified VCs it is often far quicker than the API solver object
     # on the very same text (measured: 0.25 s against > 100 s on C12's interval-DP invariant)
@@ -150,7 +151,7 @@ def _solve_one(task):
     if prefer:
         # the back end (and hypothesis variant) that discharged this obligation on the baseline tree goes first
         pb, pt = prefer
-        suffix = "+cone" if pb.endswith("+cone") else ("+relevant-hyps" if pb.endswith("+relevant-hyps") else "")
+        suffix = next((sf for sf in ("+near1", "+near2", "+cone", "+relevant-hyps") if pb.endswith(sf)), "")
         text = dict(texts).get(suffix)
         budget = min(max(10.0, 4 * pt + 5), max(timeout_s, 10.0) * 2)
         r = None
@@ -382,7 +383,8 @@ def _scalar(e):
 
 def solve_all(obligations, timeout_s=20, procs=None, want_model=True):
     tasks = [(o["name"], o["smt2"], min(timeout_s, 5) if o.get("kind") == "cover" else min(timeout_s, o.get("kind_timeout", timeout_s)), want_model,
-              o.get("smt2_rel"), o.get("smt2_cone"), o.get("prefer")) for o in obligations]
+              o.get("smt2_rel"), o.get("smt2_cone"), o.get("prefer"),
+              [("+near%d" % d, o["smt2_near%d" % d]) for d in (1, 2) if o.get("smt2_near%d" % d)]) for o in obligations]
     if not tasks:
         return []
     procs = procs or min(16, os.cpu_count() or 4, len(tasks))
